@@ -9,7 +9,8 @@ TECHNIQUE = "grammar-based generation of documented spellings + malformed string
 RULE = ("families: duration (number x every documented unit x optional space x case), size (number x K..E x optional i x optional B x optional space x case), "
         "date (valid and calendar-invalid YYYY-MM-DD), malformed (empty, negative, decimal, unit only, double unit, junk suffix, extra fields, look-alike "
         "characters), print-then-parse (abbreviate_space -> parse_abbreviated_size), and tahoe.cfg [storage] sections read by client.py. "
-        "Non-trivial = spelling with a space, mixed case, a multi-letter suffix, a malformed string, or a calendar-invalid date; distinct by input string.")
+        "Non-trivial = spelling with a space, mixed case, a multi-letter suffix, a malformed string, or a calendar-invalid date; distinct by input string."
+        ' Print-then-parse: the oracle computes what the printed string denotes; if that is exactly n the string must parse to n, if it is another whole number only that number may come back; sizes whose two-decimal print is exact are generated on purpose.')
 LEVEL_TEXT = "Every documented spelling must give the exact reference value; any other string must raise or equal the reference value of its normalised reading."
 ASSUMPTIONS = ["a month is 31 days and a year 365 days (the documentation gives no figure; 31 days is the lease period used throughout garbage-collection.rst)",
                "lenient-but-right readings (surrounding whitespace, Unicode digits) are tolerated; a silently different value is a violation"]
